@@ -351,10 +351,11 @@ def execute_interleave(ctx, case):
                 ctx.mon("interleaved: schedules over >= 2 non-empty generators (one with >= 2 items)")
         else:
             q, inner = qs[0], case["inner"]
-            alone = call(db, q)
-            # the features come back as objects: the inner queries are built from what the outer generator yields
+            # every call consumed alone first (the inner queries are built from the Feature objects the outer one yields)
+            alone_feats = list(open_query(db, q))
+            alone = [f.id for f in alone_feats]
             alone_inner = {}
-            for f in open_query(db, q):
+            for f in alone_feats:
                 alone_inner[f.id] = call(db, inner_query(inner, f))
             outer, inner_got, inner_qs = [], {}, {}
             for f in open_query(db, q):
